@@ -39,20 +39,27 @@ def guarded(fn, arg, seconds=10):
         signal.signal(signal.SIGVTALRM, old)
 
 
+_SECONDS = 10
+
+
 def _run_range(rng):
     lo, hi = rng
-    return [guarded(_FN, _WORK[i]) for i in range(lo, hi)]
+    if _SECONDS is None:
+        return [_FN(_WORK[i]) for i in range(lo, hi)]
+    return [guarded(_FN, _WORK[i], _SECONDS) for i in range(lo, hi)]
 
 
-def pmap(fn, work, chunk=200, procs=None):
-    """ordered map of fn over work using forked workers"""
-    global _WORK, _FN
+def pmap(fn, work, chunk=200, procs=None, seconds=10):
+    """ordered map of fn over work using forked workers; seconds = CPU-time
+    guard per case (None: no guard, for work units that are whole batches)"""
+    global _WORK, _FN, _SECONDS
+    _SECONDS = seconds
     build_scratch()
     work = list(work)
     _WORK, _FN = work, fn
     procs = procs or NCPU
     if len(work) <= chunk or procs <= 1:
-        return [guarded(fn, w) for w in work]
+        return _run_range((0, len(work)))
     ranges = [(i, min(len(work), i + chunk))
               for i in range(0, len(work), chunk)]
     ctx = mp.get_context('fork')
